@@ -37,7 +37,11 @@ func (vc *VC) newSpecCtx(fc *FuncContract, cur, old *State) *SpecCtx {
 	}
 	ctx.pkg = vc.pkg
 	if ctx.cf != nil {
-		if p := vc.eng.pkgByPath(ctx.cf.PkgPath); p != nil {
+		path := ctx.cf.PkgPath
+		if fc != nil && fc.PkgPath != "" {
+			path = fc.PkgPath
+		}
+		if p := vc.eng.pkgByPath(path); p != nil {
 			ctx.pkg = p
 		}
 		vc.usedFiles[ctx.cf] = true
@@ -115,6 +119,13 @@ func (c *SpecCtx) resolveType(s string) (types.Type, *Sort) {
 		return t, u.sortOf(t)
 	case s == "any":
 		return types.NewInterfaceType(nil, nil), sortAny
+	case strings.HasPrefix(s, "fmap["):
+		j := matchBracket(s, 4)
+		if j > 0 {
+			_, ks := c.resolveType(s[5:j])
+			_, vs := c.resolveType(s[j+1:])
+			return nil, &Sort{Kind: KSet, Name: "(Array " + ks.Name + " " + vs.Name + ")", Key: ks, Elem: vs, IsMap: true}
+		}
 	case strings.HasPrefix(s, "set[") && strings.HasSuffix(s, "]"):
 		_, es := c.resolveType(s[4 : len(s)-1])
 		return nil, u.setSort(es)
@@ -344,6 +355,10 @@ func (c *SpecCtx) tr(e SExpr) Term {
 		case KStr:
 			return Term{"(sat " + base.S + " " + i.S + ")", sortInt}
 		case KSet:
+			if base.Sort.IsMap {
+				i = c.coerce(i, base.Sort.Key)
+				return Term{"(select " + base.S + " " + i.S + ")", base.Sort.Elem}
+			}
 			i = c.coerce(i, base.Sort.Elem)
 			return Term{"(select " + base.S + " " + i.S + ")", sortBool}
 		case KMap:
@@ -494,6 +509,10 @@ func (c *SpecCtx) trIdent(name string) Term {
 		if o := c.pkg.Types.Scope().Lookup(name); o != nil {
 			return c.trObject(o)
 		}
+	}
+	// ghost variable
+	if gv := vc.eng.ghostVars[name]; gv != nil {
+		return vc.readGhostVar(c.state(), gv)
 	}
 	// ghost constant (0-ary ghost func)
 	if g := vc.eng.ghostFuncs[name]; g != nil && len(g.Params) == 0 {
@@ -764,12 +783,20 @@ func (c *SpecCtx) trCall(x *SCall) Term {
 		return Term{vc.U.zero(ss), ss}
 	case "anys", "anys2": // the []any a variadic call packs its arguments into
 		ss := vc.U.sortOf(types.NewSlice(types.NewInterfaceType(nil, nil)))
-		arr := fmt.Sprintf("((as const (Array Int %s)) %s)", ss.Elem.Name, vc.U.zero(ss.Elem))
+		arr := vc.U.zeroArray(ss.Elem)
 		for i, a := range x.Args {
 			v := vc.toAny(c.tr(a))
 			arr = fmt.Sprintf("(store %s %d %s)", arr, i, v.S)
 		}
 		return Term{fmt.Sprintf("(mk_%s %s %d)", ss.Name, arr, len(x.Args)), ss}
+	case "upd": // upd(m, k, v): functional update of a ghost map
+		m := c.tr(x.Args[0])
+		if m.Sort.Kind != KSet || !m.Sort.IsMap {
+			return c.errorf("upd needs a ghost map")
+		}
+		k := c.coerce(c.tr(x.Args[1]), m.Sort.Key)
+		v := c.coerce(c.tr(x.Args[2]), m.Sort.Elem)
+		return Term{"(store " + m.S + " " + k.S + " " + v.S + ")", m.Sort}
 	case "setadd":
 		s := c.tr(x.Args[0])
 		v := c.coerce(c.tr(x.Args[1]), s.Sort.Elem)
@@ -886,16 +913,50 @@ func (c *SpecCtx) callPureGo(fo *types.Func, args []SExpr) Term {
 	fn := vc.declarePure(fc, fo)
 	sig := fo.Type().(*types.Signature)
 	var as []string
+	np := sig.Params().Len()
 	for i, a := range args {
+		if sig.Variadic() && i >= np-1 {
+			break
+		}
 		v := c.tr(a)
-		if i < sig.Params().Len() {
+		if i < np {
 			ps := vc.U.sortOf(sig.Params().At(i).Type())
 			v = c.coerce(v, ps)
 		}
 		as = append(as, v.S)
 	}
+	if sig.Variadic() {
+		// pack the remaining arguments exactly as a call site does
+		ss := vc.U.sortOf(sig.Params().At(np - 1).Type())
+		rest := args[minInt(np-1, len(args)):]
+		packed := false
+		if len(rest) == 1 {
+			// an argument that already is the packed slice (anys(...), s...) is passed through
+			if v := c.tr(rest[0]); v.Sort != nil && v.Sort.Name == ss.Name {
+				as = append(as, v.S)
+				packed = true
+			}
+		}
+		if !packed {
+			arr := vc.U.zeroArray(ss.Elem)
+			n := 0
+			for _, a := range rest {
+				v := c.coerce(c.tr(a), ss.Elem)
+				arr = fmt.Sprintf("(store %s %d %s)", arr, n, v.S)
+				n++
+			}
+			as = append(as, fmt.Sprintf("(mk_%s %s %d)", ss.Name, arr, n))
+		}
+	}
 	rs := vc.U.sortOf(sig.Results().At(0).Type())
 	return Term{sApp(fn, as...), rs}
+}
+
+func minInt(a, b int) int {
+	if a < b {
+		return a
+	}
+	return b
 }
 
 // declarePure declares the uninterpreted symbol of a pure Go function and its contract axiom.
@@ -1015,6 +1076,13 @@ func (vc *VC) havocLocation(ctx *SpecCtx, st *State, m *Clause) {
 	case *SIdent:
 		if x.Name == "heap" || x.Name == "everything" {
 			vc.havocAllHeaps(st)
+			if x.Name == "everything" {
+				vc.havocGhostVars(st)
+			}
+			return
+		}
+		if gv := vc.eng.ghostVars[x.Name]; gv != nil {
+			vc.havocGhostVar(st, gv)
 			return
 		}
 		// a variable passed by reference is not expressible; a package-level variable:
@@ -1200,4 +1268,35 @@ func collectCalls(e SExpr, out map[string]bool) {
 		collectCalls(x.Val, out)
 		collectCalls(x.Body, out)
 	}
+}
+
+
+// ghost variables: package-level ghost state (e.g. the abstract file system).
+func (vc *VC) ghostVarSort(gv *GhostVar) *Sort {
+	ctx := &SpecCtx{vc: vc, vars: map[string]Term{}, typeArgs: map[string]types.Type{}, noState: true, where: "ghost var " + gv.Name}
+	ctx.pkg = vc.eng.pkgByPathOr(gv.PkgPath, vc.pkg)
+	_, s := ctx.resolveType(gv.Type)
+	return s
+}
+
+func (vc *VC) readGhostVar(st *State, gv *GhostVar) Term {
+	obj := vc.eng.ghostVarObj[gv.Name]
+	if st != nil {
+		if t, ok := st.vars[obj]; ok {
+			return t
+		}
+	}
+	key := "$ghostvar:" + gv.Name
+	if t, ok := vc.heap0[key]; ok {
+		return t
+	}
+	t := vc.fresh("gv_"+gv.Name, vc.ghostVarSort(gv))
+	vc.heap0[key] = t
+	return t
+}
+
+func (vc *VC) havocGhostVar(st *State, gv *GhostVar) {
+	// make sure the initial symbol exists (so that old() sees the entry value)
+	vc.readGhostVar(vc.entry, gv)
+	st.vars[vc.eng.ghostVarObj[gv.Name]] = vc.fresh("gv_"+gv.Name, vc.ghostVarSort(gv))
 }
